@@ -266,6 +266,8 @@ type BlockResult struct {
 
 type BlockOpts struct {
 	Absent   map[int]bool // validator indexes that did not sign the last block
+	Omit     map[int]bool // validator indexes missing from the commit info altogether (Tendermint's set lags the application's by two blocks)
+	AfterBegin func()     // called right after BeginBlock
 	Evidence []int        // validator indexes with byzantine evidence
 	Dt       time.Duration
 	PreTx    func(i int, raw []byte)            // called right before DeliverTx of transaction i
@@ -302,6 +304,9 @@ func (n *Node) Block(txs [][]byte, o *BlockOpts) *BlockResult {
 	for _, v := range n.curValidators() {
 		addr := make([]byte, len(v.tm))
 		copy(addr, v.tm[:]) // (go 1.17 loop-variable semantics: never slice the loop variable)
+		if o.Omit[v.idx] {
+			continue
+		}
 		votes = append(votes, abci.VoteInfo{Validator: abci.Validator{Address: addr, Power: 1}, SignedLastBlock: !o.Absent[v.idx]})
 	}
 	var ev []abci.Evidence
@@ -317,6 +322,9 @@ func (n *Node) Block(txs [][]byte, o *BlockOpts) *BlockResult {
 	if !ok {
 		res.Panic = n.Panics[len(n.Panics)-1]
 		return res
+	}
+	if o.AfterBegin != nil {
+		o.AfterBegin()
 	}
 	for txi, tx := range txs {
 		if o.PreTx != nil {
